@@ -31,3 +31,18 @@ Theorem C11_get_variants_all_level :
   forall fuel h c r, In r (get_variants (S fuel) h c None [] false) <-> In r (map snd (vn_children (node h c))).
 Proof. exact get_variants_all_level. Qed.
 Print Assumptions C11_get_variants_all_level.
+
+(* the edge invariant over ALL add histories: in every heap reachable from freshly created objects by any sequence of add calls
+   (accepted or refused, in any order, re-adds and re-parenting included), each child that points back to its parent variant has
+   the UID <parent UID>-<own id> and architectures within its parent's *)
+From PM Require Import Proofs.ForestProofs.
+Theorem C11_reach_edge_invariant :
+  forall h ops, fresh_heap h -> no_pseudo h ->
+  Inv (fold_left apply_vop ops h) /\ no_pseudo (fold_left apply_vop ops h).
+Proof. exact reach_inv. Qed.
+Print Assumptions C11_reach_edge_invariant.
+
+Theorem C11_add_preserves_edge_invariant :
+  forall h c v vid, no_pseudo h -> Inv h -> Inv (fst (variant_add h c v vid)).
+Proof. exact variant_add_preserves_inv. Qed.
+Print Assumptions C11_add_preserves_edge_invariant.
